@@ -155,7 +155,9 @@ class BoundedStream:
 
             self._bytes_remaining = content_length - len(self._buffer)
 
-        self._pos = len(self._buffer)
+        # NOTE: Nothing has been returned to the caller yet; the buffered
+        #   first chunk is counted once it is read or discarded.
+        self._pos = 0
 
         if first_event and self._bytes_remaining:
             # NOTE(kgriffs): Override if the event says there's no more data
@@ -237,6 +239,7 @@ class BoundedStream:
                 'This stream is closed; no further operations on it are permitted.'
             )
 
+        self._pos += len(self._buffer)
         self._buffer = b''
 
         while self._bytes_remaining > 0:
@@ -246,7 +249,7 @@ class BoundedStream:
                 self._bytes_remaining = 0
             else:
                 try:
-                    num_bytes = len(event['body'])
+                    num_bytes = min(len(event['body']), self._bytes_remaining)
                 except KeyError:
                     # NOTE(kgriffs): The ASGI spec states that 'body' is optional.
                     num_bytes = 0
